@@ -1,6 +1,16 @@
-"""M phase of C13 / C14: design-level model checking of specs/XsdDesign.tla (no repo code involved)."""
+"""M phase of C13 / C14: design-level model checking of specs/XsdDesign.tla (no repo code involved).
+
+MC_XsdDesign(.cfg | _thorough.cfg): the content-model automaton of the generated schema design, explored for every
+scenario x value x single mutation of the bounded family, satisfies the design-level forms of the clauses.
+MC_XsdDesign_exclusion.cfg (thorough tier): negative control - the invariant "a descendant's tightening is enforced" must be
+VIOLATED, i.e. the exclusion in C14's sentence is real in this design (and TLC is able to see a wrong verdict)."""
 from harness import core
 
 
 def model_check(ck: core.Check) -> None:
-    pass
+    suffix = "" if ck.quick else "_thorough"
+    ck.model_check("MC_XsdDesign", "MC_XsdDesign%s.cfg" % suffix, "schema design (sequence content model + facets of the own class) satisfies the clauses", workers=8, timeout=1500)
+    if not ck.quick:
+        res = ck.tlc("MC_XsdDesign", "MC_XsdDesign_exclusion.cfg", what="M: negative control (descendant tightening is not enforced by the design)", workers=4, timeout=600)
+        if not any(v["invariant"] == "Design_ExclusionIsReal" for v in res.violations):
+            raise core.MachineryFailure("negative control of XsdDesign did not fire")
